@@ -11,6 +11,7 @@ from props import c13, c16
 
 ID = "C20"
 LEAN_MODULES = ["CatiiProps.C20"]
+USES_TRANSLATOR = ['driver']   # Gen/DriverGen.lean: facts read off ccube.calculate / xcube.calculate (tools/translate_driver.py)
 USES_MODEL = False
 RULE = ("cubes with 1..k sub-cubes, both cube types; the callback raises an Exception subclass at invocation index i for "
         "EVERY i (serial), and for every subset (<=4 sub-cubes) or random subsets of invocations (pooled: permuting pool, "
